@@ -277,6 +277,85 @@ def run_decode1090(exe, sc, scratch, idx):
     return r
 
 
+PY_DRIVER = r"""
+import json, pickle, sys
+sys.path.insert(0, sys.argv[1])
+import _rust
+job = json.load(open(sys.argv[2]))
+out = _rust.decode_1090t_vec(job["msgs"], job["ts"], job["reference"])
+recs = pickle.loads(bytes(out)) if not isinstance(out, list) else out
+def clean(x):
+    if isinstance(x, float) and x != x:
+        return "NaN"
+    if isinstance(x, dict):
+        return {k: clean(v) for k, v in x.items()}
+    if isinstance(x, (list, tuple)):
+        return [clean(v) for v in x]
+    return x
+with open(sys.argv[3], "w") as f:
+    for r in recs:
+        f.write(json.dumps(clean(r)) + "\n")
+"""
+
+
+def python_scenarios(scs):
+    """the same histories through the Python binding's decode_1090t_vec (batches of frames and of time stamps, one
+    receiver reference): as one batch, split into two batches, and with a frame that fails its parity check in the
+    middle of the batch (it must simply be absent from the result)"""
+    out = []
+    for sc in scs:
+        if sc["name"].startswith("gnss-clock") or sc["group"] not in ("positions", "moving") or sc["options"]["dedup_ms"] != 0:
+            continue
+        ev = [e for e in sc["events"] if e["sensor"] == 0]
+        if not ev:
+            continue
+        for variant in ("one-batch", "two-batches", "garbage-inside"):
+            d = dict(sc)
+            d["events"] = ev
+            d["sensor_index"] = 0
+            d["variant"] = variant
+            d["name"] = f"{sc['name']}@python:{variant}"
+            out.append(d)
+    return out
+
+
+def run_python(so, sc, scratch, idx):
+    r = Run(); r.name = sc["name"]; r.lines = []; r.all = None; r.tracks = {}; r.error = None; r.sc = sc
+    d = os.path.join(scratch, f"py_{idx}")
+    os.makedirs(d, exist_ok=True)
+    shutil.copyfile(so, os.path.join(d, "_rust.so"))
+    msgs, ts = [], []
+    t = 1.7e9
+    for n, e in enumerate(sc["events"]):
+        t = 1.7e9 + e["t"] if "t" in e else t + 0.5
+        msgs.append(e["hex"]); ts.append(t)
+        if sc["variant"] == "garbage-inside" and n == 2:
+            bad = bytearray(bytes.fromhex(e["hex"])); bad[-1] ^= 0x01; bad[5] ^= 0x10
+            msgs.append(bad.hex()); ts.append(t + 0.01)
+    if sc["variant"] == "two-batches":
+        h = len(msgs) // 2
+        job_m, job_t = [msgs[:h], msgs[h:]], [ts[:h], ts[h:]]
+    else:
+        job_m, job_t = [msgs], [ts]
+    ref = sc["sensors"][0]
+    json.dump({"msgs": job_m, "ts": job_t, "reference": [ref["lat"], ref["lon"]]}, open(os.path.join(d, "job.json"), "w"))
+    open(os.path.join(d, "drv.py"), "w").write(PY_DRIVER)
+    r.t0 = r.t1 = t
+    try:
+        p = subprocess.run([sys.executable, os.path.join(d, "drv.py"), d, os.path.join(d, "job.json"), os.path.join(d, "out.jsonl")],
+                           cwd=d, stdout=subprocess.DEVNULL, stderr=subprocess.PIPE, text=True, timeout=60)
+    except subprocess.TimeoutExpired:
+        r.error = "the Python binding did not return within 60 s"
+        return r
+    if p.returncode != 0:
+        r.error = f"the Python driver exited with {p.returncode}: {p.stderr[-300:]}"
+        return r
+    r.lines = open(os.path.join(d, "out.jsonl")).read().split("\n")
+    if r.lines and r.lines[-1] == "":
+        r.lines.pop()
+    return r
+
+
 def judge(label, prefix, runs, scs, cat, pid):
     """evaluates the clauses of <pid> on the runs of one binary; returns a partial result"""
     viol = {}
@@ -594,6 +673,12 @@ def main():
         with ThreadPoolExecutor(max_workers=12) as ex:
             druns = list(ex.map(lambda a: run_decode1090(d1090, a[1], scratch, a[0]), enumerate(dscs)))
         parts.append(judge("decode1090", "decode1090:", druns, dscs, cat, pid))
+    pylib = os.environ.get("E2E_PYLIB")
+    if pylib and pid == "C06":
+        pscs = python_scenarios([s for s in cat["scenarios"] if s["group"] in GROUPS_D1090[pid] and (not replay or s in scs or s["name"].startswith("solo:"))])
+        with ThreadPoolExecutor(max_workers=12) as ex:
+            pruns = list(ex.map(lambda a: run_python(pylib, a[1], scratch, a[0]), enumerate(pscs)))
+        parts.append(judge("python binding", "python:", pruns, pscs, cat, pid))
     shutil.rmtree(scratch, ignore_errors=True)
     bad = [p for p in parts if "machinery_error" in p]
     if bad:
@@ -603,7 +688,7 @@ def main():
            "violations": sum((p["violations"] for p in parts), []), "outcomes": {}, "warnings": sum((p["warnings"] for p in parts), []), "wall_s": round(time.time() - t0, 2)}
     for n, p in enumerate(parts):
         for k, v in p["outcomes"].items():
-            res["outcomes"][("" if n == 0 else "decode1090:") + k] = v
+            res["outcomes"][("" if n == 0 else f"part{n}:") + k] = v
     print(json.dumps(res))
 
 
